@@ -66,6 +66,9 @@ func c09Bases() []c09Base {
 		{"NIT", 0x10, [][]byte{SecNIT(nit, ref.SecHdr{CNI: true})}, []ExpData{{Kind: "NIT", Table: nit}}},
 		{"EIT-2-packets", 0x12, [][]byte{SecEIT(eit, ref.SecHdr{TableID: 0x51, CNI: true})}, []ExpData{{Kind: "EIT", Table: eit}}},
 		{"TOT", 0x14, [][]byte{SecTOT(tot)}, []ExpData{{Kind: "TOT", Table: tot}}},
+		// current_next_indicator 0 ("next" table): decoded and checked like any other section
+		{"SDT-next", 0x11, [][]byte{SecSDT(sdtB, ref.SecHdr{CNI: false, Version: 4})}, []ExpData{{Kind: "SDT", Table: sdtB}}},
+		{"PAT-next", 0, [][]byte{SecPAT(pat, ref.SecHdr{CNI: false, Version: 8})}, []ExpData{{Kind: "PAT", Table: pat}}},
 		{"EIT-over-1021-bytes", 0x12, [][]byte{SecEIT(eitBig, ref.SecHdr{TableID: 0x60, CNI: true})}, []ExpData{{Kind: "EIT", Table: eitBig}}},
 	}...)
 }
